@@ -98,6 +98,14 @@ EXTRA = [
   ('attr', 8, "s.out @= s.K", "s.K = 255"),
   ('attr', 8, "s.out @= s.a + Bits8(s.K)", "s.K = -128"),
   ('attr', 8, "s.out @= s.a & s.KB", "s.KB = Bits8(0xf0)"),
+  # conditionals in condition position; temporaries assigned twice (typed, then a bare literal / loop index)
+  ('cond', 8, "s.out @= s.a if (s.c if s.a[0] else s.b[0]) else s.b", ""),
+  ('cond', 8, "s.out @= (s.a if s.c else s.b) if (s.b[1] if s.c else s.a[7]) else (s.b if s.a[0] else 3)", ""),
+  ('cond', 8, "s.out @= s.a + 1 if ((s.a > s.b) if s.c else (s.a == s.b)) else s.b - 1", ""),
+  ('tmp2', 8, "acc = s.a + s.b\n      if s.c:\n        acc = 0\n      s.out @= acc", ""),
+  ('tmp2', 8, "acc = s.a + s.b\n      if s.c:\n        acc = Bits8(0)\n      s.out @= acc", ""),
+  ('tmp2', 8, "acc = s.a\n      for i in range(3):\n        acc = acc + i\n      s.out @= acc", ""),
+  ('tmp2', 8, "acc = s.a[0:4]\n      acc = s.b[0:4]\n      s.out @= zext(acc, 8)", ""),
 ]
 
 
